@@ -3015,9 +3015,20 @@ void Analyser::AnalyserImpl::analyseModel(const ModelPtr &model)
 
     AnalyserInternalVariablePtrs overconstrainedVariables;
 
-    for (const auto &internalEquation : mInternalEquations) {
-        switch (internalEquation->mType) {
-        case AnalyserInternalEquation::Type::VARIABLE_BASED_CONSTANT: {
+    // Note: requalifying a variable may in turn require requalifying the
+    //       variables that are computed from it, whatever the order of the
+    //       equations, so we repeat the process until nothing changes anymore.
+
+    bool requalified;
+
+    do {
+        requalified = false;
+
+        for (const auto &internalEquation : mInternalEquations) {
+            if (internalEquation->mType != AnalyserInternalEquation::Type::VARIABLE_BASED_CONSTANT) {
+                continue;
+            }
+
             auto unknownVariable = internalEquation->mUnknownVariables.front();
 
             for (const auto &variable : internalEquation->mAllVariables) {
@@ -3034,10 +3045,16 @@ void Analyser::AnalyserImpl::analyseModel(const ModelPtr &model)
                     unknownVariable->mType = AnalyserInternalVariable::Type::ALGEBRAIC;
                     internalEquation->mType = AnalyserInternalEquation::Type::ALGEBRAIC;
 
+                    requalified = true;
+
                     break;
                 }
             }
-        } break;
+        }
+    } while (requalified);
+
+    for (const auto &internalEquation : mInternalEquations) {
+        switch (internalEquation->mType) {
         case AnalyserInternalEquation::Type::NLA:
             if (internalEquation->mNlaSiblings.size() + 1 > internalEquation->mUnknownVariables.size()) {
                 // There are more NLA equations than unknown variables, so all
